@@ -6,8 +6,9 @@ def _close(a, b, rel=1e-9, abs_=1e-9):
     return abs(a - b) <= rel * max(abs(a), abs(b)) + abs_
 
 
-def check_qha_input(runner, client, i, data, ph, what, rel=1e-9, abs_=1e-9, coord_abs=1e-7):
-    """data: QHAInputData returned by the real reader; ph: the numbers the simulator wrote."""
+def check_qha_input(runner, client, i, data, ph, what, rel=0.0, abs_=0.0, coord_abs=0.0):
+    """data: QHAInputData returned by the real reader; ph: the numbers the simulator wrote.  Default: EXACT -- every token the
+    simulator's writer prints is the shortest/rounded decimal of the double it keeps as truth, so a correctly rounded parse returns it."""
     def bad(msg):
         runner.verdict("O-round", "C17", client, i, f"{what}: {msg}")
         return False
@@ -41,7 +42,7 @@ def check_qha_input(runner, client, i, data, ph, what, rel=1e-9, abs_=1e-9, coor
     return True
 
 
-def check_elast_data(runner, client, i, data, st, what, rel=1e-9, abs_=1e-9):
+def check_elast_data(runner, client, i, data, st, what, rel=0.0, abs_=0.0):
     def bad(msg):
         runner.verdict("O-round", "C17", client, i, f"{what}: {msg}")
         return False
